@@ -43,20 +43,27 @@ def evaluate(mod, case):
     except HarnessError:
         raise
     except Exception as e:  # noqa
-        tb = traceback.extract_tb(sys.exc_info()[2])
-        inner = None
-        for fr in tb:
-            if "/pyfvtool/" in fr.filename:
-                inner = fr
-        if inner is None:
+        cf = crash_failure(e)
+        if cf is None:
             raise
-        # the outermost frame of the property module tells which call was being made
         r = Result()
-        r.fail(f"crash:{type(e).__name__}:{os.path.basename(inner.filename)}:{inner.name}",
-               f"{type(e).__name__}: {e} (in {inner.name}, {os.path.basename(inner.filename)}:{inner.lineno})")
+        r.fail(*cf)
         if hasattr(mod, "annotate_crash"):
             mod.annotate_crash(case, r)
         return r
+
+
+def crash_failure(e):
+    """(bucket, msg) if the exception being handled passed through pyfvtool code, else None"""
+    tb = traceback.extract_tb(sys.exc_info()[2])
+    inner = None
+    for fr in tb:
+        if "/pyfvtool/" in fr.filename:
+            inner = fr
+    if inner is None:
+        return None
+    return (f"crash:{type(e).__name__}:{os.path.basename(inner.filename)}:{inner.name}",
+            f"{type(e).__name__}: {e} (in {inner.name}, {os.path.basename(inner.filename)}:{inner.lineno})")
 
 
 class Stats:
